@@ -58,6 +58,10 @@ P = {
    "Real beacon committee subscriber, attestation aggregator and controller (real constructors): all duty sets of 3 (thorough 4) validators over the (slot, committee) pairs of an epoch x current slot positions x signature classes x committee sizes; all size/target pairs of the aggregator selection against a sha256 reference on boundary signatures; all attestation subsets x subscription-info shapes for the aggregation jobs; plus an end-to-end composition. Inputs and histories are enumerated completely within the alphabet.",
    "Trusted: recording scheduler stand-in refuses duplicate names like the real one; two committees, <=4 validators.",
    SEQ, "DESIGN.md §6 C14"),
+ "C15": ("model_checking",
+   "Real controller (real New, real scheduler, chain time and subscriber) on the virtual clock: sync-period length {2,4,8} x Altair fork epoch {0,1,3} x every slot-start clock position of the first 2-3 periods x start-up / direct scheduling x membership patterns; real messenger + aggregator + signer for every {ok, no account, no signature}^3 member combination over three slots; aggregator selection for 5 committee geometries on boundary hashes against a sha256 reference. Inputs and fault subsets are enumerated completely within the alphabet.",
+   "Trusted: recording messenger in the window part; remote-signer stand-in turning a nil batch entry into a zero signature (as dirk does); in-package hook exposing scheduleSyncCommitteeMessages / firstEpochOfSyncPeriod.",
+   SEQ, "DESIGN.md §6 C15"),
 }
 checks = []
 for pid in ids:
